@@ -5,6 +5,9 @@ from __future__ import annotations
 import numpy as np
 
 from gridrv import instrument
+from gridrv.monitors import roundtrip
+
+_CLONES = {"n": 0}
 
 PROP = "C07"
 TITLE = "A molecular grid is the weighted concatenation of its atomic grids"
@@ -118,6 +121,16 @@ def setup(ctx):
             mag += float(np.sum(np.abs(g.weights * ref_aim[sl] * f[sl])))
         ctx.check("integral-is-sum-of-atomic-integrals", subj, abs(tot - parts) / (mag + 1e-300), 1e-12)
         ctx.check("stored-atgrids-flag", subj, (self.atgrids is not None) == bool(store))
+        # a copy of the molecular grid (copy / deepcopy / pickle round trip) is the same concatenation: every public
+        # property bit for bit, stored atomic grids and their shells included; every 3rd construction, kinds in rotation
+        _CLONES["n"] += 1
+        if _CLONES["n"] % 3 == 0 and self.size <= 60000:
+            kind = roundtrip.KINDS[(_CLONES["n"] // 3) % len(roundtrip.KINDS)]
+            c = roundtrip.check_clone(ctx, subj, self, kind)
+            if c is not None and store and self.atgrids is not None:
+                for i in range(len(atgrids)):
+                    gi, go = c.get_atomic_grid(i), self.get_atomic_grid(i)
+                    ctx.check("clone-equals-original", f"{subj}:{kind}:get_atomic_grid", np.array_equal(gi.points, go.points) and np.array_equal(gi.weights, go.weights), sig="clone-differs:atomic-grid")
 
     instrument.wrap_method(ctx, MolGrid, "__init__", post, hook="MolGrid.__init__")
 
